@@ -1,5 +1,6 @@
 import MosnVerif.Model.Bytes
 import MosnVerif.Gen.C01Tars
+import MosnVerif.Gen.FrameConsts
 /-!
 Envelope model of the tars codec (`pkg/protocol/xprotocol/tars/{protocol,decoder,encoder,command}.go`) and of the
 writer side of TarsGo v1.1.4 (`tars/protocol/codec/codec.go` `Write_*`, `res/requestf/{RequestPacket,ResponsePacket}.go`
@@ -109,6 +110,12 @@ def frameLen? (b : Bytes) : Option Nat :=
     if n < 4 ∨ n > 10485760 then none
     else if b.length < n then none
     else some n
+
+/-- [c08l9] `TarsRequest` answers PACKAGE_ERROR (the announced length can never become a package): `Decode` returns a
+decode error when the regenerated flag says so (since fix 'tars invalid package length'; `nil, nil` before) -/
+def packageError (b : Bytes) : Bool :=
+  decide (4 ≤ b.length) && (decide (getBE b 0 4 < 4) || decide (getBE b 0 4 > 10485760)) &&
+    Gen.FrameConsts.tars_packageErrorFails
 
 /-- where the TarsGo reader starts inside the frame (regenerated: it used to be 0, which broke frames ≥ 256 bytes) -/
 def packetOf (frame : Bytes) : Bytes := frame.drop Gen.C01Tars.readerOffsetRequest
